@@ -282,6 +282,7 @@ def register(reg):
                  raises={'PyBufrKitError': None}, serves=['C07'],
                  note='decoder: bitmap = the last n_031031 values decoded; kept in state.bitmap iff it is defined for reuse'))
     register_sections(reg)
+    register_process(reg)
 
 
 def register_sections(reg):
@@ -325,15 +326,18 @@ def register_sections(reg):
                 'ival(bufr_message._n_subsets.value) >= 1')
     add(Contract(M + 'Decoder.process_section', {'self': DEC, 'bufr_message': MSG, 'bit_reader': R, 'section': SEC}, returns=INT,
                  requires=layout() + ['bufr_message != None', 'bit_reader != None',
-                                      # the data section needs the subset count and compression flag decoded from section 3
-                                      'implies(%s, %s)' % (HAS_TD, TD_READY),
+                                      # the data section needs the subset count and compression flag decoded from section 3 (layout of the
+                                      # definition files: section 3 precedes the data section and carries both as message properties; an
+                                      # empty message (no subset) is refused by the coder state)
+                                      '@input implies(%s, %s)' % (HAS_TD, TD_READY),
                                       # ... which are parameters of an earlier section, and no parameter of the data section shadows them
-                                      'implies(%s, forall(q, 0, len(%s), %s.name != "is_compressed" and %s.name != "n_subsets" and '
+                                      '@input implies(%s, forall(q, 0, len(%s), %s.name != "is_compressed" and %s.name != "n_subsets" and '
                                       '%s is not bufr_message._is_compressed and %s is not bufr_message._n_subsets))'
                                       % (HAS_TD, PS, par('q'), par('q'), par('q'), par('q'))],
                  modifies=['section.bitpos_start', 'fields_of(section._params, "value")', 'bufr_message.*', 'bit_reader.bit_stream.pos',
                            'bit_reader.bit_stream.bits', 'bit_reader.bit_stream.len'],
                  loops={0: Loop(invariants=['section.bitpos_start == %s' % P0, 'rpos(bit_reader) >= %s' % P0,
+                                            'bufr_message.sections is old(bufr_message.sections)',
                                             'implies(%s, %s)' % (HAS_TD, TD_READY),
                                             'implies(%s, bufr_message._is_compressed is old(bufr_message._is_compressed) and '
                                             'bufr_message._n_subsets is old(bufr_message._n_subsets))' % HAS_TD,
@@ -346,6 +350,7 @@ def register_sections(reg):
                                           'bit_reader.bit_stream.bits', 'bit_reader.bit_stream.len'],
                                 locals={'parameter': Ref('SectionParameter')})},
                  ensures=['result == rpos(bit_reader) - %s' % P0, 'result >= 0', 'section.bitpos_start == %s' % P0,
+                          'bufr_message.sections is old(bufr_message.sections)',
                           # the declared length is honoured: surplus octets are skipped, an overrun is refused (raises)
                           'implies(%s, result == 8 * %s)' % (HAS_LEN, SLEN),
                           # no parameter with an expected value is accepted with another value (D-7: refused with the library error)
@@ -357,3 +362,62 @@ def register_sections(reg):
                  note='on return exactly the declared number of octets has been consumed; a value differing from its expectation or a section '
                       'declared shorter than its content is refused with PyBufrKitError; no other exception class escapes from a section '
                       'without template data'))
+
+
+def register_process(reg):
+    """Decoder.process (C04, C11, C12, C17): the section loop against the interface of SectionConfigurer.configure_section"""
+    from contracts.bufr import layout
+    add = reg.add
+    MSG = Ref('BufrMessage')
+    SECS = 'bufr_message.sections'
+    HAS_TD_R = 'exists(q, 0, len(result._params), select(result._params, q).type == "template_data")'
+    INFO = 'has_transformer(configuration_transformers, "info_configuration")'
+    # ---- assumed interface of the section configuration (bufr.py reads the JSON definition files; the facts about the layouts are
+    # the ground obligations `definitions#layout`) ------------------------------------------------------------------------------
+    add(Contract('pybufrkit.bufr.SectionConfigurer.configure_section',
+                 {'self': Ref('SectionConfigurer'), 'bufr_message': MSG, 'section_index': INT, 'configuration_transformers': ANYFUNC},
+                 returns=Ref('BufrSection'), trusted=True, nullable=[],
+                 requires=['bufr_message != None'], modifies=['list(%s)' % SECS],
+                 allocates=['result._params', 'result.end_of_message', 'result.optional', 'result.index', 'list(result._params)'],
+                 ensures=['implies(result != None, %s)' % ' and '.join('(%s)' % x for x in layout('result')),
+                          'implies(result != None, fresh(result) and fresh(result._params) and forall(q, 0, len(result._params), fresh(select(result._params, q))))',
+                          'implies(result != None, len(%s) == old(len(%s)) + 1 and select(%s, old(len(%s))) is result)' % (SECS, SECS, SECS, SECS),
+                          'implies(result == None, len(%s) == old(len(%s)))' % (SECS, SECS),
+                          'list_eq_upto(%s, old(len(%s)))' % (SECS, SECS),
+                          # metadata-only configuration: the parameter list stops before the template data
+                          'implies(result != None and %s, not %s)' % (INFO, HAS_TD_R)],
+                 raises={'KeyError': None, 'AttributeError': None, 'AssertionError': None}, serves=['C04', 'C17', 'C11', 'C12'],
+                 note='interface contract (assumed): a configured section satisfies the layout facts of the definition files, is appended to the '
+                      'message, and -- with the info_configuration transformer -- has no template-data parameter'))
+    add(Contract('pybufrkit.bufr.BufrMessage.wire', {'self': MSG}, trusted=True, modifies=[],
+                 raises={k: None for k in ('PyBufrKitError', 'AssertionError', 'NotImplementedError', 'ValueError', 'StopIteration', 'IndexError',
+                                           'TypeError', 'KeyError', 'AttributeError')},
+                 serves=['C04', 'C17'], note='interface contract (assumed): wiring builds the hierarchical view inside the TemplateData object (C09) and '
+                                             'touches nothing the section contracts speak about'))
+    IDX = 'str_indexof(s, start_signature, 0)'
+    ERRS = {k: None for k in ('PyBufrKitError', 'AssertionError', 'NotImplementedError', 'ValueError', 'StopIteration', 'IndexError', 'TypeError',
+                              'KeyError', 'AttributeError', 'IOError', 'OSError')}
+    add(Contract(M + 'Decoder.process',
+                 {'self': DEC, 's': BYTES, 'file_path': STR, 'start_signature': BYTES, 'info_only': BOOL, 'ignore_value_expectation': BOOL,
+                  'wire_template_data': BOOL}, returns=MSG, assume_input=True,
+                 requires=['self != None'], modifies=[],
+                 loops={0: Loop(invariants=['bufr_message != None', 'bit_reader != None', 'bufr_message is entry(bufr_message)', 'bit_reader is entry(bit_reader)',
+                                            'bit_reader.bit_stream is entry(bit_reader.bit_stream)',
+                                            '%s != None' % SECS, '%s is entry(%s)' % (SECS, SECS),
+                                            'nbits_decoded == rpos(bit_reader)', 'nbits_decoded >= 0',
+                                            'implies(info_only, gh(bufr_message, "td_entered") == 0)',
+                                            'gh(bufr_message, "td_entered") >= 0'],
+                                modifies=['bufr_message.*', 'list(%s)' % SECS, 'bit_reader.bit_stream.pos', 'bit_reader.bit_stream.bits', 'bit_reader.bit_stream.len',
+                                          'ghost(bufr_message, "td_entered")'],
+                                locals={'section': Ref('BufrSection')})},
+                 ensures=['result != None', 'fresh(result)', 'has_exit(0)',
+                          # the message's bytes: exactly the span from the start signature over the bits the sections consumed
+                          'is_byt(result.serialized_bytes)',
+                          'bval(result.serialized_bytes) == substr(substr(s, %s, len(s) - %s), 0, at_exit(0, rpos(bit_reader)) // 8)' % (IDX, IDX),
+                          # metadata only: the template data is never entered
+                          'implies(info_only, gh(result, "td_entered") == 0)'],
+                 raises=dict(ERRS), must_raise=[('PyBufrKitError', '%s < 0' % IDX)],
+                 serves=['C04', 'C11', 'C12', 'C17'],
+                 note='decoding starts at the first start signature (none: PyBufrKitError), walks the configured sections until the one flagged '
+                      'end_of_message, and reports as the message bytes exactly the span the sections consumed; metadata-only decoding never enters '
+                      'the template data'))
